@@ -159,25 +159,29 @@ def finishCore (cfg : Cfg) (e : Env) (busy : Bool) : S → S := guard fun s0 =>
   let now := e.now
   let s1 :=
     if finish_g1 s0.p cfg e then
+      -- UNKNOWN: the exit is only recorded, the state stays UNKNOWN
       s0 |> setP (fun p => { p with killing := finish_a7 p cfg e, delay := finish_a8 p cfg e,
                                     exitstatus := some (finish_a9 p cfg e) })
+    else if finish_g2 s0.p cfg e then
+      s0 |> setP (fun p => { p with killing := finish_a11 p cfg e, delay := finish_a12 p cfg e,
+                                    exitstatus := some (finish_a13 p cfg e) })
          |> (fun s => assertIn (finish_c0 s.p cfg e) s)
          |> (fun s => changeState cfg now (finish_c1_0 s.p cfg e) true s)
-    else if finish_g3 s0.p cfg e then
+    else if finish_g4 s0.p cfg e then
       s0 |> setP (fun p => { p with exitstatus := none, spawnerr := true })
          |> (fun s => assertIn (finish_c2 s.p cfg e) s)
          |> (fun s => changeState cfg now (finish_c3_0 s.p cfg e) true s)
     else
-      let s2 := s0 |> setP (fun p => { p with delay := finish_a14 p cfg e, backoff := finish_a15 p cfg e,
-                                              exitstatus := some (finish_a16 p cfg e) })
-      let s3 := if finish_g4 s2.p cfg e then changeState cfg now (finish_c4_0 s2.p cfg e) true s2 else s2
+      let s2 := s0 |> setP (fun p => { p with delay := finish_a18 p cfg e, backoff := finish_a19 p cfg e,
+                                              exitstatus := some (finish_a20 p cfg e) })
+      let s3 := if finish_g5 s2.p cfg e then changeState cfg now (finish_c4_0 s2.p cfg e) true s2 else s2
       let s4 := s3 |> (fun s => assertIn (finish_c5 s.p cfg e) s)
-      if finish_g5 s4.p cfg e then
+      if finish_g6 s4.p cfg e then
         s4 |> (fun s => changeState cfg now (finish_c6_0 s.p cfg e) (finish_c6_1 s.p cfg e) s)
       else
         s4 |> setP (fun p => { p with spawnerr := true })
            |> (fun s => changeState cfg now (finish_c7_0 s.p cfg e) (finish_c7_1 s.p cfg e) s)
-  s1 |> setP (fun p => { p with pid := finish_a20 p cfg e })
+  s1 |> setP (fun p => { p with pid := finish_a24 p cfg e })
      |> emit .closeParent
      |> (fun s => if busy then emit .rejected s else s)
 
